@@ -3,7 +3,7 @@
 SLOT=$1; RES=$2; shift 2
 for item in "$@"; do
   IFS=: read id v prop <<< "$item"; prop=${prop:-$id}
-  p=/tmp/seed/$id/out/$v.diff; [ -f "$p" ] || p=/tmp/seed/$id/out2/$v.diff; [ -f "$p" ] || p=/tmp/seed/$id/out3/$v.diff; [ -f "$p" ] || p=/tmp/seed/$id/out4/$v.diff; [ -f "$p" ] || p=/tmp/seed/$id/out5/$v.diff; [ -f "$p" ] || p=/verif/seeded/$id-$v/patch.diff
+  p=/tmp/seed/$id/out/$v.diff; [ -f "$p" ] || p=/tmp/seed/$id/out2/$v.diff; [ -f "$p" ] || p=/tmp/seed/$id/out3/$v.diff; [ -f "$p" ] || p=/tmp/seed/$id/out4/$v.diff; [ -f "$p" ] || p=/tmp/seed/$id/out5/$v.diff; [ -f "$p" ] || p=/tmp/seed/$id/out7/$v.diff; [ -f "$p" ] || p=/verif/seeded/$id-$v/patch.diff
   out=$(VERIF_TIMEOUT=${VERIF_TIMEOUT:-400} "$(dirname "$0")/seedrun.sh" -s $SLOT $p $prop quick 2>&1)
   echo "== $id/$v vs $prop: $(echo "$out" | grep '^RESULT' | sed 's/.*: //')" >> $RES
   echo "$out" | grep -E "^VIOLATION|check=|INCONCLUSIVE" | head -3 | cut -c1-400 >> $RES
